@@ -251,6 +251,8 @@ def _rand_value(rng, codes):
     lens = [rng.choice([0, 0, 1, 2, 3, 5, 8]) for _ in range(n)]
     if rng.random() < 0.15:
         lens = [0] * n
+    elif rng.random() < 0.12:
+        lens = [1] * n      # every row exactly one character (round 9: a list of one-character rows must stay a list of rows)
     return ("rag", [[rng.choice(codes) for _ in range(l)] for l in lens])
 
 
@@ -306,7 +308,7 @@ def cases(tier, rng):
                 break
         kind = rng.choice(["program", "program", "eqchar", "copy_indep"])
         case = {"op": kind, "enc": enc, "v": _val_json(val), "ops": ops, "npint": rng.random() < 0.4, "from_str": rng.random() < 0.5,
-                "vform": rng.choice(["str", "str", "base", "enc", "enc_other"])}
+                "from_rows": rng.random() < 0.3, "vform": rng.choice(["str", "str", "base", "enc", "enc_other"])}
         if kind == "copy_indep":
             # after the program: c = r.copy(); assign into c; the original r must be unchanged (and vice versa)
             try:
@@ -343,7 +345,7 @@ def cases(tier, rng):
             cur = nxt
         obs = rng.choice(["iter", "str", "tolist", "len", "eqstr", "neqchar", "where", "eqarr"])
         case = {"op": "observe", "enc": enc, "v": _val_json(val), "ops": ops, "obs": obs, "npint": rng.random() < 0.3, "from_str": rng.random() < 0.5,
-                "vform": rng.choice(["str", "base", "enc"])}
+                "from_rows": rng.random() < 0.3, "vform": rng.choice(["str", "base", "enc"])}
         if obs in ("eqstr", "where", "eqarr"):
             if cur[0] != "flat":
                 continue
@@ -456,9 +458,20 @@ def nontrivial(c):
 
 # ------------------------------------------------------------------ implementation
 _FROM_STR = False
+_FROM_ROWS = False
 
 
 def _build(enc_name, vj):
+    r = _build0(enc_name, vj)
+    if _FROM_ROWS and vj["t"] == "rag" and vj["r"]:
+        # round 9: the operand reassembled from its own rows (`as_encoded_array([r[0], r[1], …])`, the rows as 1-d encoded
+        # arrays obtained by integer row indexing) — the same list of strings, whatever the row lengths (all of length one included)
+        import bionumpy as bnp
+        return bnp.as_encoded_array([r[i] for i in range(len(r))], _enc(enc_name))
+    return r
+
+
+def _build0(enc_name, vj):
     import bionumpy as bnp
     from bionumpy.encoded_array import EncodedArray, EncodedRaggedArray
     E = _enc(enc_name)
@@ -509,6 +522,8 @@ def _observe(v, enc_name):
 
 
 def impl(c):
+    global _NPINT, _FROM_STR, _FROM_ROWS
+    _FROM_ROWS = False
     import bionumpy as bnp
     from bionumpy.encoded_array import EncodedArray, EncodedRaggedArray
     from bionumpy.io.strops import split, join, str_equal
@@ -546,9 +561,9 @@ def impl(c):
         f = _build("BaseEncoding", {"t": "flat", "l": c["s"]})
         return [[int(x) for x in row.raw()] for row in split(f, sep=chr(c["sep"]))]
     enc = c["enc"]
-    global _NPINT, _FROM_STR
     _NPINT = bool(c.get("npint"))
     _FROM_STR = bool(c.get("from_str"))
+    _FROM_ROWS = bool(c.get("from_rows"))
     vform = c.get("vform", "str")
 
     def value(codes_):
@@ -975,6 +990,8 @@ def tags(c, got):
         t.append("value:" + v["t"] + (":empty-rows" if v["t"] == "rag" and any(len(r) == 0 for r in v["r"]) else ""))
     if "obs" in c:
         t.append("obs:" + c["obs"])
+    if c.get("from_rows") and "v" in c and c["v"]["t"] == "rag" and c["v"]["r"]:
+        t.append("built:from-rows" + (":all-one-char" if all(len(r) == 1 for r in c["v"]["r"]) else ""))
     if isinstance(got, dict):
         t.append("outcome:" + ("raises" if "err" in got else "returns"))
     return t
